@@ -62,7 +62,7 @@ def build_harness(profile="release"):
 
 # ---------------------------------------------------------------- scalars
 def hx(v):
-    return "%064x" % (v % R)
+    return "%x" % (v % R)
 
 class Rng:
     """Single PRNG; every random choice of a check derives from it."""
